@@ -2,6 +2,7 @@
 mod common;
 mod tl;
 mod gen;
+mod c01;
 mod c02;
 mod c03;
 mod c04;
@@ -38,6 +39,7 @@ fn main() {
             let id = args[2].clone();
             let tier = args.get(3).cloned().unwrap_or_else(|| "quick".into());
             let rep = match id.as_str() {
+                "C01" => c01::run(&tier),
                 "C02" | "C05" => c02::run(&id, &tier),
                 "C03" => c03::run(&tier),
                 "C04" => c04::run(&tier),
@@ -70,6 +72,7 @@ fn main() {
             let doc: serde_json::Value = serde_json::from_str(&std::fs::read_to_string(&args[3]).expect("read replay file")).expect("parse replay");
             let detail = &doc["detail"];
             let code = match id.as_str() {
+                "C01" => c01::replay(detail),
                 "C02" | "C05" => c02::replay(detail, &id),
                 "C03" => c03::replay(detail),
                 "C04" => c04::replay(detail),
